@@ -233,6 +233,9 @@ func runC14(t *testing.T, sched simrt.Schedule, prog c14Prog) ([]Violation, RunS
 						killed[w.Users[p[0]].Uid.P2PName(w.Users[p[1]].Uid)] = kAcc
 					}
 				}
+				// the user's own 'me' and 'fnd' topics are stopped the same way
+				killed[u.Uid.UserId()] = kAcc
+				killed[u.Uid.FndName()] = kAcc
 			}
 		}
 		reqNo := func(text string) (client, no int, ok bool) {
